@@ -19,7 +19,8 @@ from ..strdom import Str, Hole, SELF
 from ..algebra import short, mentions_elem
 
 TECHNIQUE = ('static analysis: read/write sets of every generation method over the extracted effect traces (presence reads '
-             'in discovery loops vs presence-changing and constant-named writes), template unification with a commutation table')
+             'in discovery loops vs presence-changing and constant-named writes), template unification with a commutation table; '
+             'self-discovery and truncating-break detection on the effect traces; object-counter uses classified on flattened functions')
 EXPLANATION = (
     'From the effect trace of every generation method the analysis computes which variables it creates for the first time '
     '(not already created by the constructor chain) or defines on other sectors, and which variable names discovery loops test '
